@@ -14,6 +14,7 @@ Definition evok (c : nat -> TaskState) (x : ev) : bool :=
   match x with
   | ETrans t o _ _ _ => is o (c t)
   | EMsg t s _ _ => is s (c t) && negb (is s SPending) && negb (is s SRunning)
+  | ENew _ _ (Some p) _ VNext => is_completed (c p)
   | _ => true
   end.
 Fixpoint logok (c : nat -> TaskState) (tr : list ev) : bool :=
@@ -28,7 +29,7 @@ Lemma is_true_eq a b : is a b = true -> a = b. Proof. apply internal_TaskState_d
 Lemma cstep_ext c c' x : (forall t, c t = c' t) -> forall t, cstep c x t = cstep c' x t.
 Proof. intros H t. destruct x; simpl; auto. now rewrite H. Qed.
 Lemma evok_ext c c' x : (forall t, c t = c' t) -> evok c x = evok c' x.
-Proof. intros H. destruct x; simpl; auto; now rewrite H. Qed.
+Proof. intros H. destruct x as [? ? [p|] ? [|] | | | | | | |]; simpl; auto; now rewrite H. Qed.
 Lemma logok_ext tr : forall c c', (forall t, c t = c' t) -> logok c tr = logok c' tr.
 Proof.
   induction tr as [|x tr IH]; simpl; auto. intros c c' H. rewrite (evok_ext c c' x H).
@@ -51,7 +52,7 @@ Proof.
   assert (Hs : forall t, cstep c x t = c t) by (destruct x; simpl in *; auto; discriminate).
   destruct (IH (cstep c x)) as [I1 I2]; auto; [intros t; now rewrite Hs|].
   split.
-  - rewrite I1, andb_true_r. destruct x; simpl in *; auto; try discriminate. now rewrite Hc.
+  - rewrite I1, andb_true_r. destruct x as [? ? [p|] ? [|] | | | | | | |]; simpl in *; auto; try discriminate; now rewrite Hc.
   - intros t. now rewrite I2.
 Qed.
 
@@ -81,7 +82,7 @@ Proof.
   apply andb_true_iff in E as [E _]. apply Nat.eqb_eq in E. subst. now rewrite K.
 Qed.
 (* an event that is neither a state write nor a message *)
-Lemma L_add_ev e x : (match x with ETrans _ _ _ _ _ => false | EMsg _ _ _ _ => false | _ => true end) = true -> L e -> L (add_ev e x).
+Lemma L_add_ev e x : (match x with ETrans _ _ _ _ _ => false | EMsg _ _ _ _ => false | ENew _ _ _ _ _ => false | _ => true end) = true -> L e -> L (add_ev e x).
 Proof.
   intros Hx (H1 & H2). split; cbn [trace add_ev with_trace].
   - rewrite logok_app, H1. simpl. destruct x; simpl in *; auto; discriminate.
